@@ -187,6 +187,12 @@ func cmdRun(args []string) int {
 	if !keep {
 		defer os.RemoveAll(work)
 	}
+	// replay files of earlier runs of this property would be misleading
+	if old, _ := filepath.Glob(filepath.Join(verifRoot, "replays", id, "*.json")); len(old) > 0 {
+		for _, f := range old {
+			_ = os.Remove(f)
+		}
+	}
 	code := runProperty(sp, tier, seed, work, start)
 	if !keep {
 		os.RemoveAll(work)
@@ -471,7 +477,9 @@ func conclude(sp *propSpec, outcomes []*childOutcome, tier string, seed uint64, 
 		}
 		// abnormal end
 		complete := oc.res != nil && oc.res.Complete
-		if !complete || (oc.exit != 0 && oc.exit != 3) {
+		if oc.exit == 4 && oc.res != nil {
+			// the monitor's own spin watchdog ended the process; its violation is in the result
+		} else if !complete || (oc.exit != 0 && oc.exit != 3) {
 			logHead := headFile(oc.logPath, 1<<20)
 			switch {
 			case oc.timedOut:
